@@ -81,6 +81,9 @@ func (d *driver) invoke(o Op) (int, []string, bool) {
 		if o.SetMem {
 			so.Resources = resourcetypes.Resources{"cpumem": resourcetypes.RawParams{"memory": o.Mem}}
 		}
+		if o.Label > 0 {
+			so.Labels = map[string]string{"l": strconv.Itoa(o.Label)}
+		}
 		_, err = w.C.SetNode(ctx, so)
 	case "dissociate":
 		var ch chan *types.DissociateWorkloadMessage
